@@ -517,7 +517,31 @@ func c19Scenarios() []*explore.Scenario {
 			Opt: vsched.Options{HorizonNS: 200 * c19S, MaxSteps: 20000}, Body: c19Body(c)})
 	}
 	scs = append(scs, c19JitterScenario())
+	// one directed run (default schedule only) of the transport-close sequence at the REAL queue
+	// size; the scaled unit "hop-deadline" explores its schedules
+	scs = append(scs, c19TransportCloseScenario(fmt.Sprintf("transport-close-directed-queue%d", packetQueueSize), explore.Bounds{}, explore.Bounds{}))
 	return scs
+}
+
+// c19TransportCloseScenario: one hop, then the shutdown sequence of quic-go's Transport.Close
+// (read deadline := now until the read loop has stopped, then cleared) and Close. Everything
+// the property states is gated as in the other scenarios; conn goroutines that stay blocked for
+// ever after Close are recorded as an observation (FINDINGS.md), gated only with
+// VERIF_C19_GATE_LEAK=1.
+func c19TransportCloseScenario(name string, quick, thorough explore.Bounds) *explore.Scenario {
+	c := &c19Cfg{name: name, portExpr: "20000-20001", iv: HopIntervalConfig{Min: 5 * time.Second, Max: 5 * time.Second},
+		window: 5500 * time.Millisecond, windows: 1, reader: true, transportClose: true,
+		portKind: vsched.KEnv, jitterKind: vsched.KEnv}
+	return &explore.Scenario{Name: name, Quick: quick, Thorough: thorough, LeakOK: !c19GateGoroutineLeak(),
+		Opt: vsched.Options{HorizonNS: 200 * c19S, MaxSteps: 40000}, Body: c19Body(c)}
+}
+
+// TestVerifC19HopDeadline is the entry point of unit "hop-deadline" (packetQueueSize scaled down
+// so that the receive queue can fill within an explorable number of steps).
+func TestVerifC19HopDeadline(t *testing.T) {
+	explore.Main(t, "C19", []*explore.Scenario{
+		c19TransportCloseScenario(fmt.Sprintf("transport-close-queue%d", packetQueueSize), explore.Bounds{P: 2, E: 0}, explore.Bounds{P: 3, E: 1, MaxExec: 600000}),
+	})
 }
 
 // c19JitterScenario: every hop interval the conn computes lies in [Min,Max], for the extreme and
@@ -581,5 +605,25 @@ func TestVerifC19Hop(t *testing.T) {
 func TestVerifC19Probe(t *testing.T) {
 	for _, l := range explore.Probe(c19Scenarios()) {
 		t.Log(l)
+	}
+}
+
+type c19Zero struct{}
+
+func (c19Zero) Choose(*vsched.Choice) int { return 0 }
+
+// TestVerifC19Trace prints the observation log of the default schedule of the scenarios whose
+// name contains $VERIF_ONLY (debugging aid, not run by vcheck).
+func TestVerifC19Trace(t *testing.T) {
+	scs := append(c19Scenarios(), c19TransportCloseScenario(fmt.Sprintf("transport-close-queue%d", packetQueueSize), explore.Bounds{}, explore.Bounds{}))
+	for _, sc := range scs {
+		if only := os.Getenv("VERIF_ONLY"); only == "" || !strings.Contains(sc.Name, only) {
+			continue
+		}
+		o := vsched.Run(c19Zero{}, sc.Opt, func() { sc.Body(vsched.Cur()) })
+		t.Logf("%s: %s %s leaked=%v steps=%d", sc.Name, o.Kind, o.Detail, o.Leaked, o.Steps)
+		for _, l := range o.Log {
+			t.Logf("   %s", l)
+		}
 	}
 }
